@@ -266,7 +266,7 @@ pub fn scenario(stream: &str, r: &mut Rng, idx: u64) -> Vec<String> {
                 out.push(format!("open {}", hex(&b)));
             }
         }
-        "trunc" => {
+        "trunc" | "truncall" => {
             // every truncation length of a finished file, every single-byte corruption of its trailer
             let n = r.range(0, 6) as usize;
             let es = gen_entries(r, n);
@@ -274,7 +274,7 @@ pub fn scenario(stream: &str, r: &mut Rng, idx: u64) -> Vec<String> {
             out.push("wnew".into());
             ins_lines(&mut out, &es);
             out.push("finish".into());
-            out.push("truncs".into());
+            out.push(if stream == "truncall" { "truncs all".into() } else { "truncs".to_string() });
         }
         "write" if r.chance(1, 16) => {
             // every default of the builders (block size 8192, interval 8, levels 0, no codec):
